@@ -8,6 +8,22 @@ TRUST = ('trusted: CBMC 6.11 front end/symex + MiniSat/z3, the reference oracle 
          'the unionfix rewrite of the symbolically executed snapshot (differentially tested each build); bounds are stated per family in the evidence file')
 
 CHECKS = {
+    'C01': ('model_checking', 'DESIGN.md C01',
+            'Instruction selection per operator: for each (operator, left type, right type) and each conversion the real mkbinaryexpr+funcexpr/convert lower '
+            'operands of fully symbolic value; the emitted IL, executed by an IL semantics, equals the C value for every defined input (solver-decided), '
+            'and obeys the IL class rules.'),
+    'C04': ('model_checking', 'DESIGN.md C04',
+            'For each (operator, type pair) and conversion the real eval() folds a tree with symbolic constant operands to exactly the carrier of the C value '
+            '(which the C01 family shows equal to the run-time value); division by zero in a constant expression is diagnosed, never trapped.'),
+    'C05': ('model_checking', 'DESIGN.md C05',
+            'Type of every binary operator over all pairs of the 14 arithmetic types (right type symbolic) and bit-field operands of symbolic width/position, '
+            'against a table generated from C11 6.3.1.1/6.3.1.8; constraint violations (non-integer operands of % << >> & ^ |) diagnosed.'),
+    'C06': ('model_checking', 'DESIGN.md C06',
+            'addmember over symbolic member sequences (type, bit-field-ness, width, named-ness, _Alignas) for struct/union/packed against an independent '
+            'System V x86-64 layout model: every offset, bit position, size and alignment.'),
+    'C07': ('model_checking', 'DESIGN.md C07',
+            'emitdata: the printed items, decoded back to bytes, equal the image denoted by a sorted initializer list with symbolic offsets, bit positions, widths '
+            'and values (size and alignment included); initadd: one step from an arbitrary valid list keeps exactly the initializers not covered by the new one.'),
     'C13': ('model_checking', 'DESIGN.md C13',
             'Every token start (257 concrete first bytes, second byte concrete too where it re-dispatches) x all continuations up to N bytes: the real scanner '
             'step agrees with an independent C11 6.4 reference lexer on kind, spelling, consumed length, residual stream and location; nextchar is the phase-2 '
